@@ -75,6 +75,7 @@ func c10Cases(tier string, seed int64) []core.Case {
 	cases = append(cases, core.Case{ID: "writefault", Run: func(ctx *core.Ctx) core.Result { return c10WriteFault(ctx) }})
 	cases = append(cases, core.Case{ID: "writer-blocked", Run: func(ctx *core.Ctx) core.Result { return c10WriterBlocked(ctx) }})
 	cases = append(cases, core.Case{ID: "unmount", Run: func(ctx *core.Ctx) core.Result { return c10Unmount(ctx, tier == "thorough") }})
+	cases = append(cases, core.Case{ID: "oversize-after-lower-negotiation", Run: func(ctx *core.Ctx) core.Result { return c10NegotiatedDown(ctx) }})
 	cases = append(cases, core.Case{ID: "tagiface", Run: func(ctx *core.Ctx) core.Result { return c10TagIface(ctx) }})
 	return cases
 }
@@ -625,6 +626,81 @@ func c10WriteFault(ctx *core.Ctx) core.Result {
 }
 
 // c10Unmount: Unmount racing with calls in flight.
+// c10NegotiatedDown: the server's Rversion lowers msize below what the client asked for; the very next reply then
+// announces a size above the negotiated limit (but within what the client had asked for) and the peer falls silent.
+// That frame can never be completed within the limit: the call returns an error, later calls are refused.
+func c10NegotiatedDown(ctx *core.Ctx) core.Result {
+	var res core.Result
+	for rep := 0; rep < 12 && len(res.Violations) == 0; rep++ {
+		ctx.Beat()
+		res.Evals++
+		neg := []uint32{1024, 256, 4096}[rep%3]
+		announced := []uint32{neg + 1, 8192, (neg + 8192) / 2}[(rep/3)%3]
+		base := stuckDump()
+		p := peer.New(neg, true) // the peer's own limit is below the 8192 the client asks for
+		sched.Install(sched.New(nil, nil))
+		stop := make(chan struct{})
+		go func() {
+			for {
+				r := p.Next(50 * time.Millisecond)
+				if r == nil {
+					select {
+					case <-stop:
+						return
+					default:
+						continue
+					}
+				}
+				if r.Msg.Type == wire.Tversion {
+					p.Reply(r, p.Answer(r.Msg))
+					continue
+				}
+				// header of a reply that would be larger than the negotiated msize, then silence
+				_, _ = p.Srv.Write([]byte{byte(announced), byte(announced >> 8), byte(announced >> 16), byte(announced >> 24), r.Msg.Type + 1, byte(r.Msg.Tag), byte(r.Msg.Tag >> 8)})
+				return
+			}
+		}()
+		fin := make(chan struct{})
+		outcome := ""
+		go func() {
+			defer close(fin)
+			c, err := go9p.Connect(p.Cli, 8192, true)
+			if err != nil {
+				outcome = "connect failed: " + err.Error()
+				return
+			}
+			if c.Msize != neg {
+				outcome = fmt.Sprintf("negotiated msize %d, expected %d", c.Msize, neg)
+			}
+			if _, err := c.Attach(nil, script.Users{}.Uid2User(0), "x"); err == nil {
+				outcome = "a call returned success although its reply was never completed"
+				return
+			}
+			s := &sess{p: p, c: c, dotu: true}
+			if r := s.do(call{kind: "stat", fidn: 9}); r == "" {
+				outcome = "a call issued after the connection failed returned success"
+			}
+		}()
+		sig := fmt.Sprintf("neg=%d;announced=%d", neg, announced)
+		if stuck, ok := hung(fin, base); ok {
+			if strings.HasPrefix(outcome, "a call") {
+				res.Violate("C10;negotiated-down;wrong-result", outcome+" ["+sig+"]", nil)
+			} else if outcome != "" {
+				res.Inconclusive = "c10: " + outcome
+			}
+		} else if stuck != "" {
+			res.Violate("C10;hang;oversize-after-lower-negotiation", fmt.Sprintf("after the server lowered msize to %d, a reply announcing %d bytes followed by silence left the call blocked forever", neg, announced), stuck)
+		} else {
+			res.Inconclusive = "c10: negotiated-down scenario did not finish, no stable blocked caller"
+		}
+		close(stop)
+		p.Srv.Close()
+		res.Sig("negotiated-down|" + sig)
+	}
+	res.Sample(map[string]interface{}{"scenario": "reply larger than the msize the server had just lowered, then silence", "client_asks": 8192})
+	return res
+}
+
 func c10Unmount(ctx *core.Ctx, thorough bool) core.Result {
 	var res core.Result
 	rounds := 60
